@@ -61,11 +61,12 @@ type trTarget struct {
 	nameConsts []string // identifiers that are named constants (→ their name as a String)
 	autoNames  bool     // every identifier that is not a variable is a named constant
 	intConsts  map[string]int64
-	rangeBytes bool   // `for _, c := range <string>` reads bytes (sound when c is only compared with ASCII constants)
-	retLean    string // Lean type of the result (needed for loops with early return)
-	recFuel    bool   // self-recursive: emitted with an explicit fuel parameter (Nat.rec)
-	resTy      trTy   // result type of a recursive function
-	resLean    string // … and its Lean type, e.g. "Int → Int" for the function after fuel
+	strConsts  map[string]string // identifiers / selectors that are string constants
+	rangeBytes bool              // `for _, c := range <string>` reads bytes (sound when c is only compared with ASCII constants)
+	retLean    string            // Lean type of the result (needed for loops with early return)
+	recFuel    bool              // self-recursive: emitted with an explicit fuel parameter (Nat.rec)
+	resTy      trTy              // result type of a recursive function
+	resLean    string            // … and its Lean type, e.g. "Int → Int" for the function after fuel
 	doc        string
 	deflt      string
 }
@@ -163,6 +164,9 @@ func (c *trCtx) typeOf(e ast.Expr) trTy {
 				return tyName
 			}
 		}
+		if _, ok := c.t.strConsts[x.Name]; ok {
+			return tyStr
+		}
 		if c.t.autoNames {
 			return tyName
 		}
@@ -254,6 +258,9 @@ func (c *trCtx) expr(e ast.Expr, want trTy) (string, trTy, error) {
 		if v, ok := c.t.intConsts[x.Name]; ok {
 			s, t := intLit(v, want)
 			return s, t, nil
+		}
+		if v, ok := c.t.strConsts[x.Name]; ok {
+			return c.strLit(v), tyStr, nil
 		}
 		if c.t.autoNames {
 			return strconv.Quote(x.Name), tyName, nil
